@@ -274,6 +274,7 @@ pub struct Facts {
     pub tx_window_events: u64,
     pub skipped_for_index_domain: u64,
     pub leaked_handles: u64,
+    pub foreign_soft_failures: u64,
 }
 
 pub struct Sim<'a, 'b, 's> {
@@ -302,6 +303,8 @@ pub struct Sim<'a, 'b, 's> {
     tx_waker: Arc<CountWaker>,
     pub facts: Facts,
     drop_views_before_reuse: bool,
+    /// The property this run is judged for.
+    focus: String,
 }
 
 fn f(prop: &str, clause: &str, msg: String) -> Fail {
@@ -318,6 +321,20 @@ macro_rules! check {
     ($cond:expr, $prop:expr, $clause:expr, $($fmt:tt)*) => {
         if !($cond) {
             return Err(f($prop, $clause, format!($($fmt)*)));
+        }
+    };
+}
+
+/// A pure observation (no effect on the model): only fatal for the property it belongs to, so
+/// that another property's run continues behind it.
+macro_rules! soft_check {
+    ($self:expr, $cond:expr, $prop:expr, $clause:expr, $($fmt:tt)*) => {
+        if !($cond) {
+            if $self.focus == $prop {
+                return Err(f($prop, $clause, format!($($fmt)*)));
+            } else {
+                $self.facts.foreign_soft_failures += 1;
+            }
         }
     };
 }
@@ -970,7 +987,7 @@ impl<'a, 'b, 's> Sim<'a, 'b, 's> {
                             ),
                         }
 
-                        check!(
+                        soft_check!(self, 
                             self.tx_waker.count() > 0,
                             "C06",
                             "tx-not-woken-on-retry",
@@ -1009,7 +1026,7 @@ impl<'a, 'b, 's> Sim<'a, 'b, 's> {
 
                         let armed = vclock::handle().lock().unwrap().wakes.iter().any(|(t, _)| *t == d);
 
-                        check!(
+                        soft_check!(self, 
                             armed,
                             "C06",
                             "timer-not-rearmed",
@@ -1025,7 +1042,7 @@ impl<'a, 'b, 's> Sim<'a, 'b, 's> {
 
                     let armed = now >= deadline || vclock::handle().lock().unwrap().wakes.iter().any(|(t, _)| *t == deadline);
 
-                    check!(
+                    soft_check!(self, 
                         armed,
                         "C06",
                         "timer-not-armed",
@@ -1523,7 +1540,7 @@ impl<'a, 'b, 's> Sim<'a, 'b, 's> {
                 }
 
                 if r.polled {
-                    check!(
+                    soft_check!(self, 
                         r.waker.count() > 0,
                         "C01",
                         "lost-wakeup",
@@ -1825,6 +1842,11 @@ impl<'a, 'b, 's> Sim<'a, 'b, 's> {
 
 /// Run a complete case. Returns the collected facts on success.
 pub fn run_case(case: &Case) -> Result<Facts, Fail> {
+    run_case_for("", case)
+}
+
+/// Run a case judged for property `focus` (pure observations of other properties are skipped).
+pub fn run_case_for(focus: &str, case: &Case) -> Result<Facts, Fail> {
     let n = usize::from(case.config.slots);
     let frame_size = usize::from(case.config.frame_size);
 
@@ -1846,7 +1868,7 @@ pub fn run_case(case: &Case) -> Result<Facts, Fail> {
             tx.replace_waker(&waker_of(&tx_waker));
 
             // SAFETY-free lifetime shortening: everything borrowed here ends with this block.
-            let r = run_phase(case, phase, &mut tx, &mut rx, &pdu_loop, tx_waker, facts.clone());
+            let r = run_phase(case, phase, &mut tx, &mut rx, &pdu_loop, tx_waker, facts.clone(), focus);
 
             facts = r?;
         }
@@ -1892,6 +1914,7 @@ fn run_phase<'a, 'b, 's>(
     pdu_loop: &'a PduLoop<'a>,
     tx_waker: Arc<CountWaker>,
     facts: Facts,
+    focus: &str,
 ) -> Result<Facts, Fail> {
     let n = usize::from(case.config.slots);
 
@@ -1925,6 +1948,7 @@ fn run_phase<'a, 'b, 's>(
         tx_waker,
         facts,
         drop_views_before_reuse: case.drop_views_before_reuse,
+        focus: focus.to_string(),
     };
 
     for (i, op) in phase.ops.iter().enumerate() {
@@ -1948,7 +1972,7 @@ fn run_phase<'a, 'b, 's>(
 /// Run a case for `property`: failures of other properties end the case silently (they are
 /// reported by that property's own check).
 pub fn run_for(property: &str, case: &Case, info: &mut CaseInfo) -> Result<Option<Facts>, Fail> {
-    match crate::core::catch(|| run_case(case)) {
+    match crate::core::catch(|| run_case_for(property, case)) {
         Ok(Ok(facts)) => Ok(Some(facts)),
         Ok(Err(fail)) => {
             if fail.signature.starts_with(&format!("{property}|")) || fail.signature.starts_with("harness") {
